@@ -41,7 +41,13 @@ def gen_cases(rng, tier):
             pkg.append([{'id': j, 't': rng.pick(TEXTS), 'n': rng.pick([None, 1.5, 2])} for j in range(nrows)])
         if not any(pkg):
             pkg[0] = [{'id': 0, 't': 'x', 'n': None}]
-        cases.append({'kind': 'dump', 'pkg': rows_enc_pkg(pkg), 'format': rng.pick(['csv', 'json']), 'zip': rng.chance(0.3),
+        fmt = rng.pick(['csv', 'csv', 'json', 'json', 'excel'])
+        z = rng.chance(0.3)
+        # how the second dump relates to the first: the same data again into a fresh target; the package loaded from the
+        # first dump, dumped again; other data into the same directory
+        # (loading a JSON dump back is the separate known finding C03.json_field_order: reload only for csv)
+        mode = 'fresh' if (z or fmt == 'excel') else rng.pick(['fresh', 'fresh', 'reload', 'samedir'] if fmt == 'csv' else ['fresh', 'samedir'])
+        cases.append({'kind': 'dump', 'pkg': rows_enc_pkg(pkg), 'format': fmt, 'zip': z, 'mode': mode,
                       'counters': rng.randrange(len(COUNTERS)), 'hashpath': rng.chance(0.3), 'pretty': rng.chance(0.5)})
     return cases
 
@@ -68,17 +74,18 @@ def names(case):
     return d
 
 
-def dump_once(case, target):
+def dump_once(case, target, source=None, extra=0):
     res = []
     for i, rows in enumerate(case['pkg']):
+        rr = rows_dec(rows) + [{'id': 1000 + j, 't': 'more', 'n': None} for j in range(extra)]
         res.append({'name': 'r%d' % i, 'fields': [{'name': 'id', 'type': 'integer'}, {'name': 't', 'type': 'string'},
-                                                    {'name': 'n', 'type': 'number'}], 'rows': rows_dec(rows)})
+                                                    {'name': 'n', 'type': 'number'}], 'rows': rr})
     kw = {'format': case['format'], 'add_filehash_to_path': case['hashpath'], 'pretty_descriptor': case['pretty']}
     if COUNTERS[case['counters']] is not None:
         kw['counters'] = dict(COUNTERS[case['counters']])
     step = DF.dump_to_zip(target, **kw) if case['zip'] else DF.dump_to_path(target, **kw)
     with quiet():
-        dp, stats = Flow(Src(res), step).process()
+        dp, stats = Flow(source if source is not None else Src(res), step).process()
     files = {}
     if case['zip']:
         with zipfile.ZipFile(target) as z:
@@ -97,9 +104,15 @@ def run_impl(case):
     os.makedirs(base, exist_ok=True)
     out = {}
     try:
+        mode = case.get('mode', 'fresh')
         for k in ('one', 'two'):
             target = os.path.join(base, k + ('.zip' if case['zip'] else ''))
-            stats, files = dump_once(case, target)
+            if k == 'two' and mode == 'reload':
+                stats, files = dump_once(case, target, source=DF.load(os.path.join(base, 'one', 'datapackage.json')))
+            elif k == 'two' and mode == 'samedir':
+                stats, files = dump_once(case, os.path.join(base, 'one'), extra=2)
+            else:
+                stats, files = dump_once(case, target)
             desc = json.loads(files['datapackage.json'].decode('utf-8'))
             nm = names(case)
             res = []
@@ -109,6 +122,9 @@ def run_impl(case):
                     rows = None
                 elif case['format'] == 'csv':
                     rows = len(list(csv.reader(io.StringIO(data.decode('utf-8'), newline='')))) - 1
+                elif case['format'] == 'excel':
+                    import openpyxl
+                    rows = openpyxl.load_workbook(io.BytesIO(data)).active.max_row - 1
                 else:
                     rows = len(json.loads(data.decode('utf-8')))
                 res.append({'path': r['path'], 'exists': data is not None, 'size': None if data is None else len(data),
@@ -131,7 +147,24 @@ def oracle(case, out):
     if 'error' in out:
         return 'dump failed: %s' % out['error']
     nm = names(case)
-    o = out['one']
+    mode = case.get('mode', 'fresh')
+    problems = []
+    for label in ('one', 'two'):
+        p = oracle_one(case, out[label], nm)
+        if p:
+            problems.append(p if label == 'one' else '%s (second dump, %s)' % (p, {'fresh': 'same data again', 'reload': 'of the package loaded from the first dump',
+                                                                               'samedir': 'other data into the same directory'}[mode]))
+    o, t = out['one'], out['two']
+    if mode != 'samedir' and ([r['md5'] for r in t['res']] != [r['md5'] for r in o['res']] or [r['rec_hash'] for r in t['res']] != [r['rec_hash'] for r in o['res']]):
+        problems.append('dumping the same data twice gave different hashes')
+    # the known discrepancy of the returned byte total (checked last inside each dump) must not hide anything else
+    for p in problems:
+        if not p.startswith('process() stats bytes'):
+            return p
+    return problems[0] if problems else None
+
+
+def oracle_one(case, o, nm):
     for r in o['res']:
         if not r['exists']:
             return 'recorded path %r does not point at a written file' % r['path']
@@ -154,17 +187,16 @@ def oracle(case, out):
         return 'process() stats count_of_rows %r disagrees with the written descriptor %r' % (st.get('count_of_rows'), o['pkg_rows'])
     if nm['datapackage-hash'] and nm['datapackage-hash'] not in (nm['datapackage-bytes'], nm['datapackage-rowcount']) and st.get('hash') != o['pkg_hash']:
         return 'process() stats hash disagrees with the written descriptor'
-    t = out['two']
-    if [r['md5'] for r in t['res']] != [r['md5'] for r in o['res']] or [r['rec_hash'] for r in t['res']] != [r['rec_hash'] for r in o['res']]:
-        return 'dumping the same data twice gave different hashes'
     if nm['datapackage-bytes'] and not shared and nm['datapackage-bytes'] != nm['datapackage-hash'] and st.get('bytes') != o['pkg_bytes']:
         return 'process() stats bytes %r disagrees with the written descriptor %r' % (st.get('bytes'), o['pkg_bytes'])
     return None
 
 
 def finding(case, out, failure):
+    if case['format'] == 'excel' and failure == 'dumping the same data twice gave different hashes':
+        return 'C09.excel_hash_not_deterministic'
     if 'one' in out and failure and failure.startswith('process() stats bytes'):
-        o = out['one']
+        o = out['two'] if '(second dump' in failure else out['one']
         if o['stats'].get('bytes') == (o['pkg_bytes'] or 0) + o['desc_size']:
             return 'C09.stats_bytes_include_descriptor'
     return None
